@@ -256,8 +256,45 @@ def body(case, rec):
         OO.datetime = real_dt
 
 
-PARTS = {"history": body}
+def process_cases():
+    return [{"n": n, "round": r} for n in (2, 3, 4) for r in range(2)]
+
+
+def body_processes(case, rec):
+    """Real processes started within the same wall-clock second into one parent folder (real clock, real file system)."""
+    import json as _json
+    import subprocess
+    import sys
+    import time
+
+    from vlib.runner import worker_env
+
+    rec.nt()
+    rec.cls(f"processes:{case['n']}")
+    parent = rec.tmp / "outputs"
+    parent.mkdir()
+    start_at = float(int(time.time()) + 9) + 0.15  # every child is ready long before; all start just after a second boundary
+    procs = [subprocess.Popen([sys.executable, "-m", "checks.c19_child", str(parent), repr(start_at), str(10 + i)], env=worker_env(), cwd=str(Path(__file__).resolve().parent.parent),
+                              stdout=subprocess.PIPE, stderr=subprocess.PIPE, text=True) for i in range(case["n"])]
+    outs = []
+    for i, p in enumerate(procs):
+        so, se = p.communicate(timeout=300)
+        if not rec.check(p.returncode == 0, "concurrent_start_failed", f"process {i}: {se[-300:]}"):
+            continue
+        outs.append(_json.loads(so.strip().splitlines()[-1]))
+    folders = [o["folder"] for o in outs]
+    rec.check(len(set(folders)) == len(folders), "two_starts_share_a_folder", f"{folders}")
+    for o in outs:
+        p = Path(o["file"])
+        if rec.check(p.exists() and str(p.parent) == o["folder"], "reported_file_missing", f"{p}"):
+            rec.check(float(np.load(p).ravel()[0]) == o["pixel"], "file_content_differs_from_bucket", f"{p}: {np.load(p).ravel()[0]} vs {o['pixel']}")
+
+
+PARTS = {"history": body, "processes": body_processes}
 
 
 def plan(tier):
-    return [Part(name="history", kind="gen", strategy=histories, examples=25 if tier == "quick" else 200)]
+    parts = [Part(name="history", kind="gen", strategy=histories, examples=25 if tier == "quick" else 200)]
+    if tier == "thorough":
+        parts.append(Part(name="processes", kind="enum", cases=process_cases, shards=3))
+    return parts
